@@ -154,11 +154,7 @@ def _solve_inner(args):
                 if cases0:
                     all_unsat = True
                     for extra in cases0:
-                        sc = z3.Solver()
-                        sc.set("timeout", timeout_ms)
-                        sc.add(*stages[-1])
-                        sc.add(*extra)
-                        if sc.check() != z3.unsat:
+                        if _portfolio_check(list(stages[-1]) + list(extra), timeout_ms) != z3.unsat:
                             all_unsat = False
                             break
                     if all_unsat:
@@ -232,6 +228,21 @@ def _solve_inner(args):
     except Exception as e:
         import traceback
         return (name, "error", time.time() - t0, None, repr(e) + traceback.format_exc()[-400:], "z3-5.1", {})
+
+
+def _portfolio_check(formulas, timeout_ms):
+    """Nonlinear queries are very seed-sensitive: a few short attempts with different seeds, then one long one."""
+    attempts = [(0, min(timeout_ms, 15000)), (7, min(timeout_ms, 15000)), (23, min(timeout_ms, 30000)), (0, timeout_ms)]
+    r = z3.unknown
+    for seed, to in attempts:
+        sc = z3.Solver()
+        sc.set("timeout", int(to))
+        sc.set("random_seed", seed)
+        sc.add(*formulas)
+        r = sc.check()
+        if r != z3.unknown:
+            return r
+    return r
 
 
 _real_cache = {}
@@ -343,7 +354,7 @@ def _fallback(args):
 
 
 CACHE_DIR = os.path.join(os.path.dirname(os.path.dirname(os.path.abspath(__file__))), ".cache", "smt")
-ENGINE_VERSION = "inst-9"  # bump when instantiation / lemma set / solving strategy changes
+ENGINE_VERSION = "inst-10"  # bump when instantiation / lemma set / solving strategy changes
 
 
 def _cache_key(smt2, expect, raw):
@@ -379,60 +390,64 @@ def _cache_put(key, value):
     os.replace(tmp, os.path.join(CACHE_DIR, key + ".json"))
 
 
+_OBS = []
+_RUN = {}
+
+
+def _work(i):
+    """Worker (forked: sees the parent's obligation list): serialise, look up the memo, solve, memoise."""
+    ob = _OBS[i]
+    timeout_s, opts, use_cache = _RUN["timeout_s"], _RUN["opts"], _RUN["use_cache"]
+    s2 = to_smt2(ob)
+    raw = getattr(ob, "raw", False)
+    key = _cache_key(s2, ob.expect, raw)
+    if use_cache:
+        hit = _cache_get(key)
+        if hit is not None:
+            return (i, hit["r"], hit["dt"], hit.get("model"), hit.get("reason", ""), hit["backend"] + " [memoised]",
+                    None if hit["r"] == "unsat" else s2)
+    o = dict(opts)
+    if raw:
+        o["raw"] = True
+    if ob.kind == "bounds" and not _mentions_real(ob.goal):
+        o["int_goal"] = True
+    name, r, dt, model, reason, backend, stats = _solve((ob.name, s2, int(timeout_s * 1000), ob.expect, ob.inputs, o))
+    if r in ("unknown", "error") and _RUN["fallback"]:
+        _, r2, dt2, label = _fallback((ob.name, s2, timeout_s))
+        if r2 in ("sat", "unsat"):
+            r, dt, model, reason, backend = r2, dt + dt2, None, "", label
+    if use_cache and r in ("sat", "unsat", "sat-candidate"):
+        try:
+            _cache_put(key, {"r": r, "dt": dt, "model": model, "reason": reason, "backend": backend})
+        except Exception:
+            pass
+    return (i, r, dt, model, reason, backend, None if r == "unsat" else s2)
+
+
 def discharge(obligations, timeout_s=20, jobs=None, fallback=True, opts=None):
     """Return list[Result] in the order of `obligations`.
 
-    Identical solver queries (same SMT-LIB text, same engine) are memoised under .cache/smt: the VCs
-    themselves are regenerated from the current source on every run."""
+    Serialisation to SMT-LIB, memo lookup and solving all happen in forked worker processes.  Identical solver
+    queries (same SMT-LIB text, same engine) are memoised under .cache/smt: the VCs themselves are regenerated from
+    the current source on every run."""
+    global _OBS
     jobs = jobs or min(16, os.cpu_count() or 4)
-    tasks = []
-    smt2s = {}
-    keys = {}
-    cached = {}
-    use_cache = not os.environ.get("VT_NO_CACHE")
-    for ob in obligations:
-        s2 = to_smt2(ob)
-        smt2s[ob.name] = s2
-        keys[ob.name] = _cache_key(s2, ob.expect, getattr(ob, "raw", False))
-        hit = _cache_get(keys[ob.name]) if use_cache else None
-        if hit is not None:
-            cached[ob.name] = hit
-            continue
-        tasks.append((ob.name, s2, int(timeout_s * 1000), ob.expect, ob.inputs, {**dict(opts or {}), **({'raw': True} if getattr(ob, 'raw', False) else {}), **({'int_goal': True} if (ob.kind == 'bounds' and not _mentions_real(ob.goal)) else {})}))
+    _OBS = list(obligations)
+    _RUN.update({"timeout_s": timeout_s, "opts": dict(opts or {}), "use_cache": not os.environ.get("VT_NO_CACHE"),
+                 "fallback": fallback})
     results = {}
-    for name, hit in cached.items():
-        results[name] = (hit["r"], hit["dt"], hit.get("model"), hit.get("reason", ""), hit["backend"] + " [memoised]")
-    if tasks:
+    if _OBS:
         ctxm = mp.get_context("fork")
-        with ctxm.Pool(min(jobs, len(tasks))) as pool:
-            for name, r, dt, model, reason, backend, stats in pool.imap_unordered(_solve, tasks, chunksize=1):
-                results[name] = (r, dt, model, reason, backend)
-    unk = [n for n, v in results.items() if v[0] in ("unknown", "error")]
-    if fallback and unk:
-        ft = [(n, smt2s[n], timeout_s) for n in unk]
-        ctxm = mp.get_context("fork")
-        with ctxm.Pool(min(jobs, len(ft))) as pool:
-            for name, r, dt, label in pool.imap_unordered(_fallback, ft, chunksize=1):
-                if r in ("sat", "unsat"):
-                    old = results[name]
-                    results[name] = (r, old[1] + dt, None, "", label)
-    if use_cache:
-        for ob in obligations:
-            if ob.name in cached:
-                continue
-            r, dt, model, reason, backend = results[ob.name]
-            if r in ("sat", "unsat", "sat-candidate"):
-                try:
-                    _cache_put(keys[ob.name], {"r": r, "dt": dt, "model": model, "reason": reason, "backend": backend})
-                except Exception:
-                    pass
+        with ctxm.Pool(min(jobs, len(_OBS))) as pool:
+            for res in pool.imap_unordered(_work, range(len(_OBS)), chunksize=1):
+                results[res[0]] = res
     out = []
-    for ob in obligations:
-        r, dt, model, reason, backend = results[ob.name]
+    for i, ob in enumerate(_OBS):
+        _, r, dt, model, reason, backend, s2 = results[i]
         if ob.expect == "sat":
             verdict = {"sat": "cover-ok", "unsat": "cover-fail"}.get(r, "unknown")
         else:
             verdict = {"unsat": "proved", "sat": "refuted", "sat-candidate": "refuted-candidate"}.get(r, "unknown")
-        out.append(Result(ob.name, verdict, backend, dt, model, reason, ob.kind, ob.text, ob.lineno, ob.func,
-                          smt2=smt2s[ob.name]))
+        out.append(Result(ob.name, verdict, backend, dt, model, reason, ob.kind, ob.text, ob.lineno, ob.func, smt2=s2))
+    _OBS = []
     return out
